@@ -11,40 +11,74 @@
 (*                              a.h = limbs of the 64-bit hash (of the key *)
 (*                              value itself on the modulo route); r the   *)
 (*                              index the real code returned               *)
-(*   call  {a, r}               one call on a container; r = [ok, v]       *)
+(*   call  {a, r}               one sequential call on a container (no     *)
+(*                              call may be open); r = [ok, v]             *)
+(*   inv {t, a} / res {t, r}    overlapping calls of goroutine t on one    *)
+(*                              container (sequence numbers drawn before   *)
+(*                              the call and after it returned): the       *)
+(*                              effect is an internal step (Lin) somewhere *)
+(*                              between the two, TLC searches for a        *)
+(*                              linearization against the plain map        *)
 (* 64-bit values are 4 limbs of 16 bits (LimbBase = 65536).                *)
 EXTENDS Shard, Json, IOUtils
 
 TraceLog == ndJsonDeserialize(IOEnv.VERIF_TRACE)
 
-VARIABLES l
-tvars == <<allvars, l>>
+VARIABLES l, pend
+tvars == <<allvars, l, pend>>
 
-TraceInit == l = 1 /\ InitWith(1)
+Idle == [st |-> "idle"]
+Quiet == \A t \in DOMAIN pend : pend[t] = Idle
+
+TraceInit == l = 1 /\ pend = <<>> /\ InitWith(1)
 
 TReset(e) ==
   /\ e.shards >= 1 /\ e.numbs = e.shards      \* the configured shard count is the one in use
   /\ n' = e.shards /\ obs' = <<>> /\ kidx' = <<>>
   /\ m' = <<>> /\ sh' = <<>> /\ rt' = <<>>
   /\ last' = [op |-> "init", n |-> e.shards]
+  /\ pend' = [t \in 1..e.threads |-> Idle]
 
 (* the index the real router returned must satisfy the contract *)
-TIdx(e) == RouteStep(e.a, e.r)
+TIdx(e) == RouteStep(e.a, e.r) /\ UNCHANGED pend
 
 (* the real (sharded) container must answer as the unsharded map *)
 TCall(e) ==
+  /\ Quiet
   /\ MapStep(e.a)
   /\ e.r.ok = Reply(e.a).ok
   /\ e.r.v = Reply(e.a).v
+  /\ UNCHANGED pend
 
-TraceNext ==
+TInv(e) ==
+  /\ pend[e.t] = Idle
+  /\ pend' = [pend EXCEPT ![e.t] = [st |-> "called", a |-> e.a]]
+  /\ UNCHANGED allvars
+
+TRes(e) ==
+  /\ pend[e.t].st = "done"
+  /\ pend[e.t].r.ok = e.r.ok /\ pend[e.t].r.v = e.r.v
+  /\ pend' = [pend EXCEPT ![e.t] = Idle]
+  /\ UNCHANGED allvars
+
+Consume ==
   /\ l <= Len(TraceLog) /\ l' = l + 1
   /\ LET e == TraceLog[l] IN
        CASE e.ev = "reset" -> TReset(e)
          [] e.ev = "idx"   -> TIdx(e)
          [] e.ev = "call"  -> TCall(e)
+         [] e.ev = "inv"   -> TInv(e)
+         [] e.ev = "res"   -> TRes(e)
          [] OTHER -> FALSE
 
+(* the effect of an open call takes place, as one step of the plain map *)
+Lin == \E t \in DOMAIN pend :
+  /\ pend[t].st = "called"
+  /\ MapStep(pend[t].a)
+  /\ pend' = [pend EXCEPT ![t] = [st |-> "done", r |-> Reply(pend[t].a)]]
+  /\ UNCHANGED l
+
+TraceNext == Consume \/ Lin
 TraceSpec == TraceInit /\ [][TraceNext]_tvars
 
 (* high-water mark of l in TLC register 1 (needs -workers 1) *)
@@ -52,5 +86,5 @@ ASSUME TLCSet(1, 0)
 Mark == TLCSet(1, IF l > TLCGet(1) THEN l ELSE TLCGet(1))
 Accepted == PrintT(<<"MARK", TLCGet(1), Len(TraceLog)>>) /\ TLCGet(1) = Len(TraceLog) + 1
 
-TView == <<n, obs, kidx, m, l>>
+TView == <<n, obs, kidx, m, l, pend>>
 =============================================================================
